@@ -135,4 +135,7 @@ theorem C06_t3_skips_abandoned (s : St) (c : Chunk) (hc : c ∈ s.q) (hdead : c.
 example :
     (onRackAfterSACK { (default : St) with now := 100, deliveredTime := 50, list := [1, 2], q := [({ tsn := 1, since := 10, abandoned := true } : Chunk), ({ tsn := 2, since := 10 } : Chunk)] } {} false 0 0 0).2 = [2] := by decide
 
+-- the hypothesis of C06_rack_dead_chunks_untouched (distinct TSNs) holds for queues the code builds
+example : (([({ tsn := 1, since := 10, abandoned := true } : Chunk), ({ tsn := 2, since := 10 } : Chunk)]).map (·.tsn)).Nodup := by decide
+
 end C06
